@@ -325,20 +325,21 @@ type mObl struct {
 }
 
 type magAnalyzer struct {
-	P        *Program
-	gadget   map[string]bool
-	fuel     int
-	obls     map[string]*mObl // by kind + site: worst case
-	cellIDs  map[string]int
-	memo     map[string]*memoRes
-	prims    map[*ssa.Function]string
-	pdom     map[*ssa.Function][]int
-	ctx      []string
-	rootName string
-	steps    int
-	notes    map[string]bool
-	widthG   *big.Int
-	mute     bool
+	P                  *Program
+	gadget             map[string]bool
+	fuel               int
+	obls               map[string]*mObl // by kind + site: worst case
+	cellIDs            map[string]int
+	memo               map[string]*memoRes
+	prims              map[*ssa.Function]string
+	pdom               map[*ssa.Function][]int
+	ctx                []string
+	rootName           string
+	steps              int
+	notes              map[string]bool
+	widthG             *big.Int
+	mute               bool
+	nRoots, totalSteps int
 }
 
 type memoRes struct {
@@ -1998,11 +1999,19 @@ func rulesMagnitude(cx *Ctx, prop string) []Obligation {
 	m := cx.mag
 	if m == nil {
 		m = newMagAnalyzer(P)
-		for _, fn := range m.magRoots() {
+		roots := m.magRoots()
+		total := 0
+		for _, fn := range roots {
 			m.analyzeRoot(fn)
+			total += m.steps
 		}
 		cx.mag = m
+		m.nRoots, m.totalSteps = len(roots), total
 	}
+	cx.Stats["w2_roots_analysed"] = m.nRoots
+	cx.Stats["w2_abstract_steps"] = m.totalSteps
+	cx.Stats["w2_sites_evaluated"] = len(m.obls)
+	cx.Stats["w2_contexts_memoised"] = len(m.memo)
 	var obs []Obligation
 	keys := make([]string, 0, len(m.obls))
 	for k := range m.obls {
